@@ -207,10 +207,11 @@ theorem wfChunk_encodeMain (cidx : Int → Nat) (consts : List CKind) (rc r : Na
     · intro p hp
       simp at hp
       subst hp
+      left
       refine ⟨by simp, ?_⟩
       rcases S_start cidx code 2 with ⟨h1, h2⟩ | ⟨b, rest, h1, h2⟩
       · exact ⟨⟨2 + sz cidx code, 2, ⟨.Return, [r]⟩, some Z⟩, by simp, by simp [h2]⟩
       · exact ⟨b, by simp [h1], h2⟩
-    · exact TgtOk_append _ _ _ hlands ⟨⟨_, hsuccRet, by simp⟩, trivial⟩ ⟨_, _, rfl, rfl⟩
+    · exact TgtOkS_of_TgtOk _ _ (TgtOk_append _ _ _ hlands ⟨⟨_, hsuccRet, by simp⟩, trivial⟩ ⟨_, _, rfl, rfl⟩)
 
 end KotoVerif.Compile
